@@ -220,7 +220,7 @@ func newC16World(c C16Case) (w *c16World, err error) {
 		var fr rhp4.RPCFormContractResult
 		fr, err = rhp4.RPCFormContract(ctx, w.host.T, w.R.CM, w.signer, w.R.CM.TipState(), st.Prices, c16HostID.PublicKey(), st.WalletAddress, proto4.RPCFormContractParams{
 			RenterPublicKey: c16ContractKey.PublicKey(), RenterAddress: w.R.Addr(),
-			Allowance: types.Siacoins(120), Collateral: types.Siacoins(60), ProofHeight: w.H.CM.Tip().Height + 70,
+			Allowance: types.Siacoins(120), Collateral: types.Siacoins(4), ProofHeight: w.H.CM.Tip().Height + 70,
 		})
 		if err != nil {
 			return nil, fmt.Errorf("setup formation: %w", err)
@@ -704,10 +704,7 @@ func runC16(c C16Case, cs *kit.CaseStats) error {
 			if d := renterBefore.Diff(renterAfter); d != "" {
 				return fmt.Errorf("%s failed (%v) and no contract was recorded, but the renter's wallet did not return to its pre-attempt state: %s", head, callErr, d)
 			}
-			// (a transaction whose inputs are unconfirmed cannot be rebased by
-			// chain.Manager.UpdateV2TransactionSet, so unconfirmed funds only
-			// have to work on the same tip)
-			if f.Kind == "" && c.Invalid == "" && (c.Basis == "same" || (!c.Unconf && (c.Basis == "behind" || (c.Basis == "stale" && !c.OnFork)))) {
+			if f.Kind == "" && c.Invalid == "" && (c.Basis == "same" || c.Basis == "behind" || (c.Basis == "stale" && !c.OnFork)) {
 				// nothing stands in the way of this exchange
 				return fmt.Errorf("non-vacuity: %s without any fault failed: %v", head, callErr)
 			}
